@@ -41,11 +41,18 @@
 //! the rustdoc ("prevents spillable reservations from using more than an even fraction") have it, with
 //! the divisor being the number of registered spillable *consumers*.
 //!
-//! Sensitivity probes (mkpatch + mutrun, `./check C17 quick`): see the end of this header, filled in
-//! after running them.
-//!
-//! PROBES
-//! (filled below)
+//! Sensitivity probes (tools/mkpatch + tools/mutrun, `./check C17 quick`, all on datafusion/execution/src/memory_pool/):
+//!   1. mod.rs `MemoryReservation::try_grow`: `size.fetch_add` moved before the pool call (DESIGN probe)
+//!      -> VIOLATION after 7 cases: "Greedy(38): after TryGrow{n:39}: reservation #0: size() = 39, model = 0".
+//!   2. pool.rs FairSpillPool unspillable branch ignores `state.spillable` when computing what is available
+//!      -> VIOLATION after 40 cases: "try_resize(68) ... was GRANTED beyond the limit rule (total 33 ...)".
+//!   3. peak_recording.rs `record`: high-water marks published from the total *before* the increment (DESIGN probe)
+//!      -> VIOLATION after 3 cases: "peak_reserved = 0, max_reserved = 0; model: 1 / 1".
+//!   4. pool.rs `TrackedConsumer::grow`: `peak.fetch_max` before `reserved.fetch_add`
+//!      -> VIOLATION after 1 case: metrics() = [("c0", false, 1, 0)], model [("c0", false, 1, 1)].
+//!   5. pool.rs GreedyMemoryPool::try_grow: `new_used < pool_size` instead of `<=`
+//!      -> VIOLATION after 8 cases: "try_grow(0) ... was DENIED although it fits the limit rule".
+//! (`free` with load+store instead of swap is sequentially equivalent; it is a probe of the concurrent part `c17c`.)
 use datafusion_common::DataFusionError;
 use datafusion_execution::memory_pool::{
     FairSpillPool, GreedyMemoryPool, MemoryConsumer, MemoryConsumerMetrics, MemoryLimit, MemoryPool, MemoryReservation, PeakRecordingPool, TrackConsumersPool,
@@ -373,7 +380,7 @@ impl Property for C17 {
         case_strategy(tier.pick(40, 120))
     }
     fn budget(&self, tier: Tier) -> Budget {
-        Budget::new(tier.pick(400_000, 6_000_000), tier.pick(8, 16)).min_nontrivial(tier.pick(20_000, 300_000))
+        Budget::new(tier.pick(300_000, 6_000_000), tier.pick(8, 16)).min_nontrivial(tier.pick(20_000, 300_000))
     }
     fn rule(&self) -> String {
         "history of 1..=40 (thorough 120) register/grow/try_grow/shrink/try_shrink/resize/try_resize/split/take/new_empty/free/drop/reset_peak ops over \
